@@ -49,14 +49,24 @@ FORBIDDEN = re.compile(r"\b(sorry|admit|native_decide|bv_decide|implemented_by|u
 
 
 def sh(cmd, cwd=None, env=None, timeout=3600):
+    """run a command in its own process group; on timeout the whole group is killed (a diverging `omega` in a regenerated
+    proof obligation must not outlive the check)"""
+    import signal
     t = time.time()
+    p = subprocess.Popen(cmd, cwd=cwd, env=env, stdout=subprocess.PIPE, stderr=subprocess.STDOUT, text=True, start_new_session=True)
     try:
-        r = subprocess.run(cmd, cwd=cwd, env=env, capture_output=True, text=True, timeout=timeout)
-        return r.returncode, r.stdout + r.stderr, time.time() - t
-    except subprocess.TimeoutExpired as e:
-        out = (e.stdout or b"")
-        out = out.decode() if isinstance(out, bytes) else out
-        return -9, out + "\nTIMEOUT", time.time() - t
+        out, _ = p.communicate(timeout=timeout)
+        return p.returncode, out, time.time() - t
+    except subprocess.TimeoutExpired:
+        try:
+            os.killpg(p.pid, signal.SIGKILL)
+        except OSError:
+            pass
+        try:
+            out, _ = p.communicate(timeout=30)
+        except Exception:
+            out = ""
+        return -9, (out or "") + "\nTIMEOUT", time.time() - t
 
 
 def tree_hash():
@@ -72,6 +82,13 @@ def tree_hash():
     for d, _, fs in sorted(os.walk(os.path.join(ROOT, "harness"))):
         for f in sorted(fs):
             if f.endswith(".go") or f == "go.mod":
+                h.update(open(os.path.join(d, f), "rb").read())
+    # the hand-written Lean sources (not Gen/, which is a function of the above): cached build verdicts belong to them too
+    for d, _, fs in sorted(os.walk(os.path.join(ROOT, "lean"))):
+        if "/.lake" in d or d.endswith("/Gen"):
+            continue
+        for f in sorted(fs):
+            if f.endswith(".lean") or f == "lakefile.toml":
                 h.update(open(os.path.join(d, f), "rb").read())
     return h.hexdigest()[:24]
 
@@ -237,7 +254,8 @@ def lean_obligations(pid, st, log, tier):
         rc, out = cached["rc"], cached["out"]
         log(f"lean build of {mods} known to fail for this tree (cached)")
     else:
-        rc, out, dt = sh(cmd, cwd=LEAN, timeout=3000)
+        # a regenerated obligation that no longer holds can make `omega` diverge: a timeout counts as "not discharged"
+        rc, out, dt = sh(cmd, cwd=LEAN, timeout=900 if tier == "quick" else 2400)
         log(f"lake build {' '.join(mods)} rc={rc} {dt:.1f}s")
         st["lean"][key] = {"rc": rc, "out": out[-8000:]}
         save_state(st)
@@ -524,6 +542,14 @@ def main():
                 violations.append(v)
             broken.extend(info.get("broken", []))
 
+    # hidden package-level state (the purity fact Structural.Globals no longer checks): look for a concrete failing run with
+    # concurrent callers sharing nothing but the package
+    if any("Structural.Globals" in m for m in lean["failed"]) and "c18_race" not in cfg.get("parts", []) and not violations:
+        ok, info = extra.c18_race(pid, tier, seed, st, log, dict(ROOT=ROOT, LEAN=LEAN, BUILD=BUILD, RUN=RUN, REPO=REPO, GOENV=harness_env(), sh=sh))
+        extra_cov["c18_race"] = info.get("coverage", {})
+        if not ok:
+            violations.extend(info.get("violations", []))
+
     rounds = 1
     stats, failing, disagreeing, want_model = run_generated(pid, tier, seed, st, log, rounds)
     if (broken or disagreeing) and not failing and not any(v[0] == "failing-input" for v in violations):
@@ -600,7 +626,8 @@ def main():
         "rule": "operation lines generated per DESIGN.md §3.3 from one PRNG (VERIF_SEED); a line is counted as distinct/non-trivial "
                 "when it calls an operation of this property (not a constructor/injection line) and the pair (line text, implementation output) "
                 "has not been seen before in this run",
-        "samples": stats["samples"] or [{"note": "no generated cases for this property"}],
+        "samples": stats["samples"] or [{"note": "this property has no operation-sequence family of its own; what ran is described under `parts`",
+                                          "parts": {k: v for k, v in extra_cov.items()}}],
         "cases": stats["cases"], "case_classes": stats["classes"], "op_histogram": stats["ops"], "outcome_histogram": stats["outcomes"],
         "obligations": lean["obligations"], "discharged": lean["discharged"],
         "checker_cmd": lean["checker_cmd"] or "n/a (no Lean module registered for this property yet)",
